@@ -164,7 +164,9 @@ def run(repo: Repo, chk: Check) -> None:
 
     for label, given in (('a single identifier', Sym('id_a', 'str')), ('a list of two identifiers', [Sym('id_a', 'str'), Sym('id_b', 'str')])):
         h = RegHooks()
-        sub = ClassRef(f'{NODE}.SomeError')
+        subs = repo.subclasses(f'{NODE}.RpcError')
+        chk.require(subs, 'no subclass of RpcError in the package')
+        sub = ClassRef(subs[0])  # a real subclass, so that helpers of the base class are found through its MRO
         res = Interp(repo, h, max_depth=2).run_paths(lambda i, given=given: i.call_function(FuncRef(isub, sub, True), [], {'error_id': given}, None, force_inline=True))
         want = [vrepr(x) for x in (given if isinstance(given, list) else [given])]
         got = sorted(vrepr(k) for k in h.table)
